@@ -449,6 +449,32 @@ pub fn gen_c01(run: &mut Run, seed: u64, thorough: bool) {
             let pf = Pf { signers: vec![], threshold: cur.threshold, nonce: cur.nonce };
             g.approve(&[m.clone()], &pf, "empty-proof");
         }
+        // a batch that is ALREADY approved (and one already executed), re-submitted under an invalid proof: the proof check
+        // comes first whatever the batch contains — the submission is rejected, not silently accepted as "nothing to do"
+        {
+            let m1 = g.fresh_msg();
+            let m2 = g.fresh_msg();
+            let ms = vec![m1.clone(), m2.clone()];
+            let dh = approve_data_hash(&g.env, &ms);
+            let pf = g.honest(&cur, &dh);
+            g.approve(&ms, &pf, "resubmit-setup-approve");
+            let app = m2.contract.clone();
+            g.run.op(
+                &format!("gw.validate_message {} {} {} {} {} {}", app.tok(), hx(&m2.chain), hx(&m2.id), hx(&m2.src), hex::encode(m2.ph), AuthSpec::exact(&[app.clone()]).tok()),
+                "resubmit-setup-consume",
+            );
+            let unknown = g.mk_set(2, 0, 2);
+            let pf_unknown = g.honest(&unknown, &dh);
+            g.approve(&ms, &pf_unknown, "resubmit-approved-batch-unknown-set");
+            let d = g.signers_digest(&cur, &dh);
+            let pf_unsigned = g.proof(&cur, &d, &vec![SigMode::Unsigned; cn]);
+            g.approve(&ms, &pf_unsigned, "resubmit-approved-batch-unsigned");
+            g.approve(&[m1.clone()], &pf_unsigned, "resubmit-approved-subbatch-unsigned");
+            g.approve(&[m2.clone(), m1.clone()], &pf_unknown, "resubmit-approved-batch-permuted-unknown-set");
+            g.approve(&ms, &pf, "resubmit-approved-batch-honest");
+            g.q_msg(&m1);
+            g.q_msg(&m2);
+        }
         g.run.op("gw.epoch", "q");
     }
     // near-overflow: weights summing to exactly 2^128-1; and a proof whose declared weights overflow
@@ -833,7 +859,10 @@ pub fn gen_c08(run: &mut Run, seed: u64, thorough: bool) {
             }
             sc += 1;
             let init: Vec<WS> = (0..ninit).map(|_| { let k = g.rng.range(1, 3) as usize; g.mk_set(k, 0, 2) }).collect();
-            g.new_gateway(&format!("c08-{sc}-ret{ret}-init{ninit}"), init, ret, 0);
+            // the retention rules do not depend on the rotation delay: one configuration per retention value runs with a
+            // non-zero minimum delay (time is moved forward before each plain rotation; bypass rotations need no waiting)
+            let delay: u64 = if ninit == 1 { 500 } else { 0 };
+            g.new_gateway(&format!("c08-{sc}-ret{ret}-init{ninit}-delay{delay}"), init, ret, delay);
             let steps = (ret.min(4) + 3) as usize;
             for step in 0..=steps {
                 // probe EVERY installed set through each of the three paths
@@ -865,7 +894,7 @@ pub fn gen_c08(run: &mut Run, seed: u64, thorough: bool) {
                     let pf = g.honest(&set, &cand.rotation_data_hash(&g.env));
                     let cls = if age <= ret { "retained" } else { "expired" };
                     g.rotate(&cand, &pf, false, &AuthSpec::None, &format!("rotate-nobypass-old-{cls}"));
-                    if g.rng.chance(1, 2) {
+                    if delay > 0 || g.rng.chance(1, 2) {
                         let op = g.operator.clone();
                         g.rotate(&cand, &pf, true, &AuthSpec::exact(&[op]), &format!("rotate-bypass-old-{cls}"));
                     }
@@ -883,6 +912,10 @@ pub fn gen_c08(run: &mut Run, seed: u64, thorough: bool) {
                 // advance history by one honest rotation (if the bypass one above did not already)
                 let k = g.rng.range(1, 3) as usize;
                 let cand = g.mk_set(k, 0, 2);
+                if delay > 0 {
+                    let t = g.now + delay;
+                    g.set_time(t);
+                }
                 g.rotate_honest(&cand, "advance");
                 g.run.op("gw.epoch", "q");
             }
